@@ -12,6 +12,9 @@ package quic
 //             default MaxStreamReceiveWindow is accepted by populateConfig unclamped)
 //   loop      SendStream -> (deliver / lose / spurious loss) -> ReceiveStream on the shared
 //             flow controllers, MAX_* frames of the receiver fed back in any order
+//   kinds-send / kinds-recv (c04_kinds_test.go): one stream of every kind (bidi / uni, opened
+//             locally / by the peer) from the real streamsMap with Conn.newFlowController, a peer
+//             (resp. a QUICSpec of this endpoint) whose three initial_max_stream_data values differ
 
 import (
 	"fmt"
@@ -34,6 +37,8 @@ func TestVerifC04(t *testing.T) {
 		c04Part("tune"),
 		c04Part("tune-over"),
 		c04Part("loop"),
+		c04KPart("kinds-send"),
+		c04KPart("kinds-recv"),
 	}, func(msg string) { t.Fatal(msg) })
 }
 
